@@ -745,7 +745,8 @@ def proj_simparams(doc, form):
     if not isinstance(flag, bool):
         ex.append('raman_params/flag:not-a-boolean')
         flag = False
-    out = {'kind': 'simparams', 'form': form, 'flag': flag, 'method': str(nli.get('method', '~absent')).split(':')[-1],
+    out = {'kind': 'simparams', 'form': form, 'flag': flag, 'method': (str(nli.get('method', '~absent')).split(':')[-1] if form == 'yang'
+                                                                         else str(nli.get('method', '~absent'))),
            'rsr': pv(g(ram, 'result_spatial_resolution'), form, ex, 'rsr'),
            'ssr': pv(g(ram, 'solver_spatial_resolution'), form, ex, 'ssr'),
            'dtol': pv(g(nli, 'dispersion_tolerance'), form, ex, 'dtol'),
@@ -780,6 +781,35 @@ def reorder_keyed_lists(kind, yang):
             ero = q.get('explicit-route-objects', {})
             if isinstance(ero.get('route-object-include-exclude'), list):
                 ero['route-object-include-exclude'] = ero['route-object-include-exclude'][::-1]
+    return y
+
+
+IDENTITY_MODULE = {'topology': 'gnpy-network-topology', 'equipment': 'gnpy-eqpt-config', 'simparams': 'gnpy-sim-params'}
+
+
+def qualify_identities(kind, yang):
+    """the same YANG document with its identityref leaves written with their module name (RFC 7951 allows both
+    spellings inside the defining module; the shipped YANG test data qualify `type` and `type_def` this way)"""
+    y = copy.deepcopy(yang)
+    mod = IDENTITY_MODULE.get(kind)
+    if mod is None:
+        return y
+
+    def q(d, k):
+        if isinstance(d, dict) and isinstance(d.get(k), str) and ':' not in d[k]:
+            d[k] = f'{mod}:{d[k]}'
+    if kind == 'topology':
+        for e in y.get(TOPO_NS, {}).get('elements', []):
+            q(e, 'type')
+            q(e.get('params'), 'length_units')
+            for p in (e.get('operational') or {}).get('raman_pumps', []) or []:
+                q(p, 'propagation_direction')
+    elif kind == 'equipment':
+        for e in y.get(EQPT_NS, {}).get('Edfa', []):
+            q(e, 'type_def')
+    elif kind == 'simparams':
+        q(y.get(SIM_NS, {}).get('nli_params'), 'method')
+        q(y.get(SIM_NS, {}).get('raman_params'), 'method')
     return y
 
 
